@@ -256,16 +256,17 @@ pub fn generate(a: &Args, rng: &mut Sm, emit: &mut dyn FnMut(String)) {
                     emit(format!("(rec-arith 0 {} {} {} {})", fx(pc), b(both), g.seed(), pf(&r)));
                 }
             } }
-            // the smallest possible draw (all-zero generator): `gen::<f64>() <= pc` at pc = 0
-            for both in [true, false] { for n in [2usize, 3, 4] {
+            // the smallest possible draw (all-zero generator): the gate `gen::<f64>() < pc` must not
+            // cross at pc = 0 and must cross at every pc > 0
+            for pc in [0.0, 0.3] { for both in [true, false] { for n in [2usize, 3, 4] {
                 let t = g.tagged_vecs(n, dim);
-                if dim >= 2 { emit(format!("(rec-npoint 1 {} {} zero {})", fx(0.0), b(both), pu(&t))); }
-                emit(format!("(rec-uniform 0 {} {} zero {})", fx(0.0), b(both), pu(&t)));
+                if dim >= 2 { emit(format!("(rec-npoint 1 {} {} zero {})", fx(pc), b(both), pu(&t))); }
+                emit(format!("(rec-uniform 0 {} {} zero {})", fx(pc), b(both), pu(&t)));
                 let r = g.reals(n, dim);
-                emit(format!("(rec-arith 0 {} {} zero {})", fx(0.0), b(both), pf(&r)));
+                emit(format!("(rec-arith 0 {} {} zero {})", fx(pc), b(both), pf(&r)));
                 let pp: Vec<Vec<usize>> = (0..n).map(|j| (0..dim).map(|i| (i + j) % dim).collect()).collect();
-                emit(format!("(rec-cycle 0 {} {} zero {})", fx(0.0), b(both), pu(&pp)));
-            } }
+                emit(format!("(rec-cycle 0 {} {} zero {})", fx(pc), b(both), pu(&pp)));
+            } } }
             // DE mutation: every y, population sizes 0..11 (multiples of 2y+1 and not)
             for y in [1u64, 2] { for n in 0..=11usize {
                 let f = *g.rng.pick(&[0.5, 1.0, 2.0, 0.25]);
